@@ -50,7 +50,8 @@ func c12LiveRows(c *Ctx) {
 			}
 			for i := 0; i < st.NumFields(); i++ {
 				f := st.Field(i)
-				if f.Name() != "currentRow" {
+				// the cursor's current row, by role: a *Row field of a cursor struct
+				if !strings.HasSuffix(tn.Name(), "Cursor") {
 					continue
 				}
 				if nt := an.NamedOf(f.Type()); nt != nil && nt.Obj().Name() == "Row" {
